@@ -290,6 +290,7 @@ theorem step_inv (cfg : Cfg) (s : State) (st : Step) (h : Inv s) (hv : valid s s
             fdRun := by simp [step, hfd],
             driver := fun _ => h.driver (by simp [hp]), execs := h.execs, logExec := h.logExec, logCanc := h.logCanc,
             exitPend := fun id hid => Or.inl (h.exitDone (by simp [hp]) id hid) }
+  | timerExit => exact flags_inv s false false h
   | execFront =>
     simp only [valid, Bool.and_eq_true, Bool.or_eq_true, beq_iff_eq] at hv
     cases hq : s.tmpQ with
@@ -351,6 +352,7 @@ theorem step_wake (cfg : Cfg) (hfix : cfg.clearOnClose = true) (s : State) (st :
     · intro n hn; cases he : s.efd <;> simp [he] at hn ⊢; omega
     · simp
     · simp [ht]
+  | timerExit => exact ⟨hw.counter, hw.closed, hw.armed⟩
   | passSkip => exact ⟨hw.counter, hw.closed, hw.armed⟩
   | execFront =>
     cases hq : s.tmpQ with
